@@ -366,9 +366,21 @@ class PeerSelector:
                 preexisting.add(share, server)
         return preexisting
 
-    def get_share_placements(self):
+    def get_share_placements(self, allocated=None):
+        """
+        :param allocated: optional map of peerid to the share numbers that
+            peer already accepted from us during this upload; the plan
+            treats them like shares the peer already holds, so they stay
+            where they are.
+        """
         shares = set(range(self.total_shares))
-        self.happiness_mappings = share_placement(self.peers, self.readonly_peers, shares, self.existing_shares)
+        existing_shares = self.existing_shares
+        if allocated:
+            existing_shares = dict((peerid, set(shnums)) for (peerid, shnums)
+                                   in self.existing_shares.items())
+            for peerid, shnums in allocated.items():
+                existing_shares.setdefault(peerid, set()).update(shnums)
+        self.happiness_mappings = share_placement(self.peers, self.readonly_peers, shares, existing_shares)
         self.happiness = calculate_happiness(self.happiness_mappings)
         GET_SHARE_PLACEMENTS.log(
             total_shares=self.total_shares,
@@ -636,7 +648,9 @@ class Tahoe2ServerSelector(log.PrefixingLogMixin):
         while effective_happiness < min_happiness and \
               (last_happiness is None or len(write_trackers)):
             errors_before = self._query_stats.bad
-            self._share_placements = self.peer_selector.get_share_placements()
+            self._share_placements = self.peer_selector.get_share_placements(
+                dict((t.get_serverid(), set(t.buckets))
+                     for t in self.use_trackers))
 
             placements = []
             for tracker in trackers:
@@ -797,6 +811,12 @@ class Tahoe2ServerSelector(log.PrefixingLogMixin):
             if tracker_id == None:
                 continue
             if tracker.get_serverid() == tracker_id:
+                if any(shnum in t.buckets
+                       for t in self.use_trackers if t is not tracker):
+                    # an earlier pass already allocated this share on
+                    # another server; a later plan (made after some other
+                    # server failed) must not allocate it a second time
+                    continue
                 shares_to_ask.add(shnum)
                 if shnum in self.homeless_shares:
                     self.homeless_shares.remove(shnum)
